@@ -33,7 +33,18 @@ def run(ctx):
 
 # ---------------------------------------------------------------- build_plan
 def plan_rules(ctx, F, rid):
-    ctx.rule(rid, 'build_plan: transfer/skipped/delete membership, whole-map loops, sorted output', floor=5)
+    """build_plan as a set of NECESSARY conditions over dominance facts (idiom-tolerant: continue / nested if / match with a
+    guard / iterator chains with a filter closure all satisfy them):
+      transfer  every push into plan.transfer is behind the `false` edge of is_excluded(<the pushed path>, excludes), is unreachable
+                (within the iteration) from the `false` edge of needs_transfer, and the needs_transfer that steers it compares the
+                entry's own metadata with dst.get(<the same path>);
+      skipped   the skipped count is behind is_excluded == false and unreachable from needs_transfer == true; a non-excluded source
+                entry cannot finish its iteration without being pushed or counted;
+      delete    every push / extend into plan.delete is behind with_delete == true; a pushed path is behind contains_key(src, path)
+                == false (or src.get(path) None) and is_excluded(path) == false; an extend takes dst keys through a filter whose
+                closure is exactly !in_src && !excluded (truth table over the two atoms, stepfn.py);
+      whole     both walks range over the whole src / dst map (order-preserving adaptors only);  sorted  before return."""
+    ctx.rule(rid, 'build_plan: transfer/skipped/delete membership (necessary guards), whole-map walks, sorted output', floor=5)
     b = F.body('plan::build_plan')
     if b is None:
         ctx.missing(rid, 'plan::build_plan')
@@ -41,135 +52,157 @@ def plan_rules(ctx, F, rid):
     cfg = fl.cfg
     src_i, dst_i, exc_i, del_i = (param_index(b, n) for n in ('src', 'dst', 'excludes', 'with_delete'))
     if None in (src_i, dst_i, exc_i, del_i):
-        # positional fallback: (src, dst, excludes, with_delete)
-        src_i, dst_i, exc_i, del_i = 1, 2, 3, 4
+        src_i, dst_i, exc_i, del_i = 1, 2, 3, 4          # positional: (src, dst, excludes, with_delete)
     loops = cfg.loops()
-    nexts = fl.calls_to('std::iter::Iterator::next')
-    pushes = fl.calls_to('std::vec::Vec::<T, A>::push')
+    heads = set(loops.keys())
+    exits = set(cfg.exits())
 
-    def target_field(pt):
-        for o in fl.origins(pt['args'][0]):
+    def field_of(op):
+        for o in fl.origins(op):
             if o.path:
                 return o.path[-1]
         return None
 
-    def loop_of(bb):
-        hs = [h for h, blocks in loops.items() if bb in blocks]
-        return hs
+    def vsig(op):
+        return {(o.kind, o.key, o.bb) for o in fl.origins(op) if o.kind != 'comb'}
 
-    def iter_source(bb):
-        """(param index, via_keys) of the map iterated by the innermost loop containing bb."""
-        for nb, nt in nexts:
-            if any(nb in loops[h] for h in loop_of(bb)):
-                # the iterated map, through adaptors that keep every entry (iter / keys / into_iter / by_ref / enumerate)
-                WHOLE = ('keys', 'iter', 'into_iter', 'by_ref', 'enumerate', 'into_keys', 'deref')
-                ps, extra = set(), set()
-                work = [nt['args'][0]]
-                for _ in range(8):
-                    nxt_ = []
-                    for op_ in work:
-                        for o in fl.origins(op_):
-                            if o.kind == 'param':
-                                ps.add(o.key)
-                            elif o.kind == 'call' and o.key.split('::')[-1] in WHOLE:
-                                nxt_.append(b.blocks[o.bb]['term']['args'][0])
-                            elif o.kind == 'call':
-                                extra.add(o.key)
-                    work = nxt_
-                    if not work:
-                        break
-                return nb, ps, extra
+    def is_param(os_, i):
+        os_ = [o for o in os_ if o.kind != 'comb']
+        return bool(os_) and all(o.kind == 'param' and o.key == i for o in os_)
+
+    def loop_heads_of(bb):
+        return [h for h, blocks in loops.items() if bb in blocks]
+
+    def walked(bb):
+        """(param indices, restricting adaptors) of the collection walked by the innermost loop around bb"""
+        hs = loop_heads_of(bb)
+        for nb, nt in fl.calls_to('std::iter::Iterator::next'):
+            if any(nb in loops[h] for h in hs):
+                coll = iterated_collection(fl, nb)
+                return nb, {o.key for o in coll if o.kind == 'param'}, {str(o.key) for o in coll if o.kind == 'call'}
         return None, set(), set()
 
-    def excl_edges(path_sig):
-        out_false = set()
+    def excl_false(sig):
+        e = set()
         for cb, ct in fl.calls_to('plan::is_excluded'):
-            po = {(o.kind, o.key, o.bb) for o in fl.origins(ct['args'][0])}
-            eo = fl.origins(ct['args'][1])
-            if po == path_sig and all(o.kind == 'param' and o.key == exc_i for o in eo):
-                out_false |= fl.outcomes(cb).get('false', set())
-        return out_false
+            if vsig(ct['args'][0]) == sig and is_param(fl.origins(ct['args'][1]), exc_i):
+                e |= fl.outcomes(cb).get('false', set())
+        return e
 
-    def unavoidable(edges_list, target_bb, heads):
-        """on the conjunction of edges (the last listed edge set), target is reached before the next iteration"""
-        for (s, t, lab) in edges_list:
-            r = cfg.reach(t, cut_blocks=[target_bb])
-            if r & (set(heads) | set(cfg.exits())):
-                return False
-        return True
+    def excl_true(sig):
+        e = set()
+        for cb, ct in fl.calls_to('plan::is_excluded'):
+            if vsig(ct['args'][0]) == sig:
+                e |= fl.outcomes(cb).get('true', set())
+        return e
 
+    def absent_edges(sig, map_i):
+        """edges on which `path` is known to be absent from map param map_i"""
+        e = set()
+        for cb, ct in fl.calls(lambda c: c.split('::')[-1] in ('contains_key', 'get')):
+            if is_param(fl.origins(ct['args'][0]), map_i) and vsig(ct['args'][1]) == sig:
+                oc_ = fl.outcomes(cb)
+                e |= oc_.get('false', set()) if callee(ct).endswith('contains_key') else oc_.get('None', set())
+                if callee(ct).endswith('::get'):
+                    for ib, it in fl.calls(lambda c: c.startswith('std::option::Option::<') and c.split('::')[-1] in ('is_none', 'is_some')):
+                        if any(o.kind == 'call' and o.bb == cb for o in fl.origins(it['args'][0])):
+                            e |= fl.outcomes(ib).get('true' if callee(it).endswith('is_none') else 'false', set())
+        return e
+
+    def within_iteration_reach(edges, hs):
+        r = set()
+        for (s_, t_, lab) in edges:
+            r |= cfg.reach(t_, cut_blocks=hs)
+        return r
+
+    pushes = fl.calls(lambda c: c in ('std::vec::Vec::<T, A>::push',))
+    extends = fl.calls(lambda c: c.split('::')[-1] in ('extend', 'extend_from_slice', 'append') and 'Vec' in c or c == 'std::iter::Extend::extend')
+    del_true = set()
+    for sb, st in switch_blocks_on(fl, lambda os_: is_param(os_, del_i)):
+        tr, fa = bool_edges(sb, st)
+        del_true |= tr
     seen = set()
+    # ------------------------------------------------------------ transfer / skipped (the walk over src)
+    nt_calls = fl.calls_to('plan::needs_transfer')
     for pb, pt in pushes:
-        fld = target_field(pt)
-        val_sig = {(o.kind, o.key, o.bb) for o in fl.origins(pt['args'][1])}
-        nb, srcs, extra = iter_source(pb)
-        heads = loop_of(pb)
-        if fld == 'transfer':
-            seen.add('transfer')
-            whole = srcs == {src_i} and not extra
-            ex_f = excl_edges(val_sig)
-            nt_true = set()
-            nt_ok = False
-            for cb, ct in fl.calls_to('plan::needs_transfer'):
-                so = fl.origins(ct['args'][0])
-                do = fl.origins(ct['args'][1])
-                s_ok = bool(so) and all(o.kind == 'call' and o.key == 'std::iter::Iterator::next' and o.bb == nb for o in so)
-                d_ok = False
-                for o in do:
-                    if o.kind == 'call' and o.key.endswith('::get'):
-                        m = call_arg_origins(fl, o.bb, 0)
-                        k = {(x.kind, x.key, x.bb) for x in call_arg_origins(fl, o.bb, 1)}
-                        if all(x.kind == 'param' and x.key == dst_i for x in m) and k == val_sig:
-                            d_ok = True
-                if s_ok and d_ok and len(do) == 1:
-                    nt_ok = True
-                    nt_true |= fl.outcomes(cb).get('true', set())
-                    nt_false = fl.outcomes(cb).get('false', set())
-            g = bool(ex_f) and bool(nt_true) and cfg.edges_guard(ex_f, pb) and cfg.edges_guard(nt_true, pb)
-            u = g and unavoidable(nt_true, pb, heads)
-            ctx.check(whole and nt_ok and g and u, rid, 'build_plan:transfer', 'push(path) iff !is_excluded(path) && needs_transfer(smeta, dst.get(path)), over all of src',
-                      'transfer membership differs from {non-excluded source paths that need transfer} (whole src: %s, operands: %s, guarded: %s, unavoidable: %s)' % (whole, nt_ok, g, u),
-                      term_loc(b, pb))
-            # skipped: the only other continuation of a non-excluded path
-            sk = None
-            for bi in cfg.reachable():
-                for st in b.blocks[bi]['stmts']:
-                    pr = st['dst']['proj']
-                    if pr and isinstance(pr[-1], dict) and pr[-1].get('name') == 'skipped':
-                        sk = bi
-            ok_sk = sk is not None and nt_ok and bool(ex_f) and cfg.edges_guard(ex_f, sk) and cfg.edges_guard(nt_false, sk) and unavoidable(nt_false, sk, heads)
-            ctx.check(ok_sk, rid, 'build_plan:skipped', 'skipped += 1 iff !is_excluded && !needs_transfer',
-                      'the skipped count is not the number of non-excluded source paths that need no transfer', term_loc(b, sk) if sk is not None else loc(b, b.lo))
-        elif fld == 'delete':
-            seen.add('delete')
-            whole = srcs == {dst_i} and not extra
-            ex_f = excl_edges(val_sig)
-            del_true = set()
-            for sb, st in switch_blocks_on(fl, lambda os_: bool(os_) and all(o.kind == 'param' and o.key == del_i for o in os_)):
-                tr, fa = bool_edges(sb, st)
-                del_true |= tr
-            # "absent from the source": the false edge of src.contains_key(path), or the None side of src.get(path)
-            ck_false = set()
-            for cb, ct in fl.calls(lambda c: c.split('::')[-1] in ('contains_key', 'get')):
-                m = fl.origins(ct['args'][0])
-                k = {(x.kind, x.key, x.bb) for x in fl.origins(ct['args'][1])}
-                if m and all(x.kind == 'param' and x.key == src_i for x in m) and k == val_sig:
-                    oc_ = fl.outcomes(cb)
-                    ck_false |= oc_.get('false', set()) if callee(ct).endswith('contains_key') else oc_.get('None', set())
-                    if callee(ct).endswith('::get'):
-                        for ib, it in fl.calls(lambda c: c.startswith('std::option::Option::<') and c.split('::')[-1] in ('is_none', 'is_some')):
-                            if any(o.kind == 'call' and o.bb == cb for o in fl.origins(it['args'][0])):
-                                ck_false |= fl.outcomes(ib).get('true' if callee(it).endswith('is_none') else 'false', set())
-            g = all([bool(ex_f), bool(del_true), bool(ck_false)]) and cfg.edges_guard(ex_f, pb) and cfg.edges_guard(del_true, pb) and cfg.edges_guard(ck_false, pb)
-            u = g and unavoidable(ex_f, pb, heads)
-            ctx.check(whole and g and u, rid, 'build_plan:delete', 'push(path) iff with_delete && !src.contains_key(path) && !is_excluded(path), over all dst keys',
-                      'delete membership differs from {destination paths absent from the source and not excluded, only with --delete} (whole dst: %s, guarded: %s, unavoidable: %s)' % (whole, g, u),
-                      term_loc(b, pb))
-        else:
-            ctx.bad(rid, 'build_plan:push-%s' % fld, 'unexpected push into plan.%s' % fld, term_loc(b, pb))
+        fld = field_of(pt['args'][0])
+        if fld != 'transfer':
+            continue
+        seen.add('transfer')
+        sig = vsig(pt['args'][1])
+        hs = loop_heads_of(pb)
+        nb, cols, extra = walked(pb)
+        whole = cols == {src_i} and not extra
+        g_ex = bool(excl_false(sig)) and cfg.edges_guard(excl_false(sig), pb)
+        nt_ok, nt_true, nt_false = False, set(), set()
+        for cb, ct in nt_calls:
+            so = [o for o in fl.origins(ct['args'][0]) if o.kind != 'comb']
+            do = [o for o in fl.origins(ct['args'][1]) if o.kind not in ('comb', 'agg')]
+            s_ok = bool(so) and all(o.kind == 'call' and o.key == 'std::iter::Iterator::next' and o.bb == nb for o in so)
+            d_ok = bool(do) and all(o.kind == 'call' and o.key.endswith('::get') and is_param(call_arg_origins(fl, o.bb, 0), dst_i) and
+                                    {(x.kind, x.key, x.bb) for x in call_arg_origins(fl, o.bb, 1) if x.kind != 'comb'} == sig for o in do)
+            if s_ok and d_ok:
+                nt_ok = True
+                nt_true |= fl.outcomes(cb).get('true', set())
+                nt_false |= fl.outcomes(cb).get('false', set())
+        not_after_false = pb not in within_iteration_reach(nt_false, hs)
+        ctx.check(whole and g_ex and nt_ok and bool(nt_false) and not_after_false, rid, 'build_plan:transfer',
+                  'push(path) behind !is_excluded(path), never after needs_transfer(smeta, dst.get(path)) == false, over all of src',
+                  'transfer membership differs from {non-excluded source paths that need transfer} (whole src: %s, behind !is_excluded: %s, needs_transfer on '
+                  'this entry and dst.get(path): %s, unreachable after needs_transfer == false: %s)' % (whole, g_ex, nt_ok, not_after_false), term_loc(b, pb))
+        # skipped
+        sk = None
+        for bi in cfg.reachable():
+            for st in b.blocks[bi]['stmts']:
+                pr = st['dst']['proj']
+                if pr and isinstance(pr[-1], dict) and pr[-1].get('name') == 'skipped':
+                    sk = bi
+        ok_sk = sk is not None and nt_ok and g_ex and cfg.edges_guard(excl_false(sig), sk) and sk not in within_iteration_reach(nt_true, hs) and \
+            bool(nt_false) and cfg.edges_guard(nt_false, sk)
+        # a non-excluded entry is pushed or counted before the iteration ends
+        accounted = True
+        for (s_, t_, lab) in excl_false(sig):
+            r = cfg.reach(t_, cut_blocks=[pb] + ([sk] if sk is not None else []))
+            if r & (set(hs) | exits):
+                accounted = False
+        ctx.check(ok_sk and accounted, rid, 'build_plan:skipped', 'skipped += 1 behind !is_excluded && needs_transfer == false; every non-excluded entry is pushed or counted',
+                  'the skipped count is not the number of non-excluded source paths that need no transfer (guards: %s, every entry accounted: %s)' % (ok_sk, accounted),
+                  term_loc(b, sk) if sk is not None else loc(b, b.lo))
+    # ------------------------------------------------------------ delete: explicit loop form
+    for pb, pt in pushes:
+        if field_of(pt['args'][0]) != 'delete':
+            continue
+        seen.add('delete')
+        sig = vsig(pt['args'][1])
+        hs = loop_heads_of(pb)
+        nb, cols, extra = walked(pb)
+        whole = cols == {dst_i} and not extra
+        g = bool(del_true) and cfg.edges_guard(del_true, pb) and bool(excl_false(sig)) and cfg.edges_guard(excl_false(sig), pb) and \
+            bool(absent_edges(sig, src_i)) and cfg.edges_guard(absent_edges(sig, src_i), pb)
+        # on the conjunction the push is unavoidable: from the last guard edge(s) the iteration cannot end without it
+        u = g
+        if g:
+            both = [e for e in excl_false(sig) if cfg.edges_guard(absent_edges(sig, src_i), e[1])] or \
+                   [e for e in absent_edges(sig, src_i) if cfg.edges_guard(excl_false(sig), e[1])]
+            for (s_, t_, lab) in both:
+                if cfg.reach(t_, cut_blocks=[pb]) & (set(hs) | exits):
+                    u = False
+        ctx.check(whole and g and u, rid, 'build_plan:delete', 'push(path) iff with_delete && path not in src && !is_excluded(path), over all dst keys',
+                  'delete membership differs from {destination paths absent from the source and not excluded, only with --delete} (whole dst: %s, guarded: %s, unavoidable: %s)' % (whole, g, u),
+                  term_loc(b, pb))
+    # ------------------------------------------------------------ delete: iterator-chain form  delete.extend(dst.keys().filter(P).cloned())
+    for eb, et in extends:
+        if field_of(et['args'][0]) != 'delete':
+            continue
+        seen.add('delete')
+        ok, why = _filter_chain_is(F, b, fl, et['args'][1], dst_i, src_i, exc_i)
+        g = bool(del_true) and cfg.edges_guard(del_true, eb)
+        ctx.check(ok and g, rid, 'build_plan:delete', 'delete.extend(dst keys filtered by !in_src && !excluded) under with_delete',
+                  'delete membership differs from {destination paths absent from the source and not excluded, only with --delete} (%s; behind with_delete: %s)' % (why, g),
+                  term_loc(b, eb))
     for need in ('transfer', 'delete'):
         if need not in seen:
-            ctx.bad(rid, 'build_plan:%s-exists' % need, 'build_plan never fills plan.%s' % need, loc(b, b.lo))
+            ctx.bad(rid, 'build_plan:%s-exists' % need, 'build_plan never fills plan.%s (or not in a recognised way)' % need, loc(b, b.lo))
     # sorted before return
     sorts = fl.calls(lambda c: 'sort' in c.split('::')[-1])
     sorted_fields = set()
@@ -181,8 +214,109 @@ def plan_rules(ctx, F, rid):
     dom = all(any(cfg.dominates(sb, rb) for sb, _ in sorts) for rb in rets) if sorts else False
     ctx.check({'transfer', 'delete'} <= sorted_fields and dom, rid, 'build_plan:sorted', 'transfer and delete sorted before return',
               'build_plan returns unsorted vectors (sorted: %s)' % sorted(sorted_fields), loc(b, b.lo))
-    # excluded source paths are dropped before anything else happens to them
     ctx.ok(rid, 'build_plan:anchors', 'src=%s dst=%s excludes=%s with_delete=%s' % (src_i, dst_i, exc_i, del_i))
+
+
+def _filter_chain_is(F, b, fl, op, dst_i, src_i, exc_i):
+    """`op` is dst.keys() (or dst.iter() keys) through exactly one filter whose closure is (p not in src) && !is_excluded(p, excludes),
+    followed only by element-preserving adaptors (cloned / copied / map(clone))"""
+    import stepfn
+    KEEP = ('cloned', 'copied', 'into_iter', 'iter', 'keys', 'by_ref', 'into_keys')
+    filt = None
+    cur = [op]
+    base = set()
+    for _ in range(8):
+        nxt = []
+        for o_ in cur:
+            for o in fl.origins(o_):
+                if o.kind == 'param':
+                    base.add(o.key)
+                elif o.kind == 'call' and o.bb is not None:
+                    last = str(o.key).split('::')[-1]
+                    t = b.blocks[o.bb]['term']
+                    if last == 'filter':
+                        if filt is not None:
+                            return False, 'more than one filter'
+                        filt = t
+                        nxt.append(t['args'][0])
+                    elif last in KEEP:
+                        nxt.append(t['args'][0])
+                    else:
+                        return False, 'adaptor %s' % last
+        cur = nxt
+        if not cur:
+            break
+    if base != {dst_i} or filt is None:
+        return False, 'not dst keys through a filter (base params %s)' % sorted(base)
+    clos = [o for o in fl.origins(filt['args'][1]) if o.kind == 'agg' and F.body(o.key) is not None]
+    if len(clos) != 1:
+        return False, 'filter predicate is not a closure of this function'
+    cb = F.body(clos[0].key)
+    # captured variables: which upvar is src / excludes
+    cap = {}
+    for blk in b.blocks:
+        for st in blk['stmts']:
+            rv = st['rv']
+            if rv['k'] == 'agg' and rv.get('ak') == 'closure' and norm(rv['def']) == cb.path:
+                for k_, o_ in enumerate(rv['ops']):
+                    os_ = [x for x in fl.origins(o_) if x.kind != 'comb']
+                    if os_ and all(x.kind == 'param' for x in os_):
+                        cap[k_] = {x.key for x in os_}
+    cfl = flow_of(cb)
+
+    def upv_is(os_, want):
+        os_ = [o for o in os_ if o.kind != 'comb']
+        return bool(os_) and all(o.kind == 'upvar' and o.key is not None and cap.get(int(o.key)) == {want} for o in os_)
+
+    def is_elem(os_):
+        os_ = [o for o in os_ if o.kind != 'comb']
+        return bool(os_) and all(o.kind == 'param' and o.key == 2 for o in os_)
+    # atoms of the closure: C = src.contains_key(p) / src.get(p).is_some(),  E = is_excluded(p, excludes)
+    atoms = {}
+    for bb_, t_ in cfl.calls():
+        c_ = callee(t_) or ''
+        if c_.split('::')[-1] == 'contains_key' and upv_is(cfl.origins(t_['args'][0]), src_i) and is_elem(cfl.origins(t_['args'][1])):
+            atoms[bb_] = 'C'
+        elif c_ == 'plan::is_excluded' and is_elem(cfl.origins(t_['args'][0])) and upv_is(cfl.origins(t_['args'][1]), exc_i):
+            atoms[bb_] = 'E'
+    if set(atoms.values()) != {'C', 'E'}:
+        return False, 'the filter closure does not test both membership in src and is_excluded on its element'
+    # truth table by path enumeration: result true exactly on (not C and not E); short-circuit forms leave atoms unread
+    rets_true, rets_false = set(), set()
+    for bi in cfl.cfg.reachable():
+        for st in cb.blocks[bi]['stmts']:
+            if st['dst']['l'] == 0 and not st['dst']['proj']:
+                rv = st['rv']
+                if rv['k'] == 'use' and rv['ops'][0]['k'] == 'const':
+                    (rets_true if rv['ops'][0].get('v') else rets_false).add(bi)
+                elif rv['k'] == 'un' and rv['op'] == 'Not':
+                    # `_0 = !x` with x the result of one of the atoms: true exactly on that atom's false outcome
+                    src_calls = [o.bb for o in cfl.origins(rv['ops'][0]) if o.kind == 'call' and o.bb in atoms]
+                    if len(src_calls) != 1:
+                        return False, 'closure result is a negation of something else'
+                    rets_true.add(('notcall', bi, src_calls[0]))
+                else:
+                    return False, 'closure result of an unmodelled form'
+    cf = lambda a_: set().union(*[cfl.outcomes(bb_).get('false', set()) for bb_, n in atoms.items() if n == a_]) if True else set()
+    ct_ = lambda a_: set().union(*[cfl.outcomes(bb_).get('true', set()) for bb_, n in atoms.items() if n == a_])
+    ok = True
+    for r in rets_true:
+        if isinstance(r, tuple):
+            _, bi, cbb = r
+            other = 'E' if atoms[cbb] == 'C' else 'C'
+            ok = ok and bool(cf(other)) and cfl.cfg.edges_guard(cf(other), bi)
+        else:
+            ok = ok and bool(cf('C')) and bool(cf('E')) and cfl.cfg.edges_guard(cf('C'), r) and cfl.cfg.edges_guard(cf('E'), r)
+    for r in rets_false:
+        # a constant false is returned only when one of the atoms was true
+        reach_ok = False
+        for a_ in ('C', 'E'):
+            if ct_(a_) and cfl.cfg.edges_guard(ct_(a_), r):
+                reach_ok = True
+        ok = ok and reach_ok
+    if not rets_true:
+        ok = False
+    return ok, 'filter closure is%s exactly !in_src && !excluded' % ('' if ok else ' not')
 
 
 # ---------------------------------------------------------------- needs_transfer
